@@ -841,6 +841,12 @@ func c12Gen(g *simcore.Tape, thorough bool) *c12Scenario {
 				rq.BodyLen = len(rq.Body)
 				rq.Chunks = c07GenChunks(g, len(rq.Body)+100)
 				rq.Resp = h2Resp{Status: simcore.Pick(g, []int{200, 204, 404, 500})}
+				if sc.Tasked && rq.Method == "HEAD" && rq.Resp.Status == 204 {
+					// the only reply here whose length net/http does not know (a reply to HEAD without Content-Length):
+					// ReverseProxy flushes such a reply from a timer goroutine that races the handler, and with the
+					// handler parked at its next statement the outcome of that race would reach the schedule
+					rq.Resp.Status = 200
+				}
 				if !h2NoBody(rq.Method, rq.Resp.Status) {
 					rq.Resp.Body = g.Bytes(g.Range(0, 500))
 				}
